@@ -6,4 +6,5 @@ void monitor_install();
 void monitor_begin_op(const Case &c, const OpSpec &op, int opi);
 void monitor_end_op(Outcome &out, int opi, long info);     // end-of-op invariants (exactly-once, tasks_remain == 0, ...)
 void monitor_collect(std::vector<Viol> &into, int opi);    // move pending violations
-void monitor_probes(std::map<std::string, long> &into);    // add and reset probe counters
+void monitor_probes(std::map<std::string, long> &into);
+long monitor_first_zero_col();                              // smallest 0-based column with an all-zero candidate set in the current op, or -1    // add and reset probe counters
